@@ -71,9 +71,9 @@ theorem finishCheck_run (clock : Clock) (t : Task) (k : Nat) (hs : t.startTime.i
       · simpa using h
       · rw [h] at hs; cases hs
 
-theorem taskEffect_inv (cfg : Cfg) (clock : Clock) (hm : Mono clock) (op : Op) (t : Task) (k : Nat)
+theorem taskEffect_inv (cfg : Cfg) (clock : Clock) (hm : Mono clock) (op : Op) (o : Nat) (t : Task) (k : Nat)
     (hnn : op.nonneg) (h : SOK clock k t.samples) :
-    SOK clock (taskEffect cfg clock op none t k).2 (taskEffect cfg clock op none t k).1.samples := by
+    SOK clock (taskEffect cfg clock op none o t k).2 (taskEffect cfg clock op none o t k).1.samples := by
   cases op with
   | addTask => exact h
   | removeTask => exact h
@@ -82,15 +82,23 @@ theorem taskEffect_inv (cfg : Cfg) (clock : Clock) (hm : Mono clock) (op : Op) (
     · exact SOK_mono h (Nat.le_succ _)
     · exact h
   | stopTask i => exact SOK_mono h (Nat.le_succ _)
-  | reset i s tot c v => simp only [taskEffect, Task.resetBody]; exact SOK_nil _ _
+  | reset i r => simp only [taskEffect, Task.resetBody]; exact SOK_nil _ _
+  | refresh => exact h
+  | start => exact h
+  | stop => exact h
   | update i u =>
     simp only [taskEffect, Task.updateBody, finishCheck_samples]
-    have hge := fun x => finishCheck_clk_ge clock x (k + 1)
-    have hbase : SOK clock k (prune cfg (clock k) (t.applyUpd u).samples) := by
+    generalize hk0 : (if u.refresh = true then refreshK cfg o (t.applyUpd u) k else k) = k0
+    have hk : k ≤ k0 := by
+      rw [← hk0]; split
+      · unfold refreshK; omega
+      · omega
+    have hge := fun x => finishCheck_clk_ge clock x (k0 + 1)
+    have hbase : SOK clock k0 (prune cfg (clock k0) (t.applyUpd u).samples) := by
       apply SOK_sublist _ (prune_sublist _ _ _)
       rw [applyUpd_samples]; split
       · exact SOK_nil _ _
-      · exact h
+      · exact SOK_mono h hk
     split
     · next hpos => exact SOK_append hm hbase (Nat.le_refl _) (hge _) (by omega)
     · exact SOK_mono hbase (Nat.le_trans (Nat.le_succ _) (hge _))
@@ -99,9 +107,9 @@ theorem taskEffect_inv (cfg : Cfg) (clock : Clock) (hm : Mono clock) (op : Op) (
     have hge := fun x => finishCheck_clk_ge clock x (k + 1)
     exact SOK_append hm (SOK_sublist h (prune_sublist _ _ _)) (Nat.le_refl _) (hge _) (by simp only [Op.nonneg] at hnn; omega)
 
-theorem taskEffect_run (cfg : Cfg) (clock : Clock) (op : Op) (t : Task) (k : Nat)
+theorem taskEffect_run (cfg : Cfg) (clock : Clock) (op : Op) (o : Nat) (t : Task) (k : Nat)
     (hst : ∀ i, op.progresses = some i → t.startTime.isSome) (h : Run t) :
-    Run (taskEffect cfg clock op none t k).1 := by
+    Run (taskEffect cfg clock op none o t k).1 := by
   cases op with
   | addTask => exact h
   | removeTask => exact h
@@ -118,9 +126,12 @@ theorem taskEffect_run (cfg : Cfg) (clock : Clock) (op : Op) (t : Task) (k : Nat
     | some v =>
       refine ⟨by simp, fun _ => ?_⟩
       exact h.2 (by simp [hs])
-  | reset i s tot c v =>
+  | reset i r =>
     simp only [taskEffect, Task.resetBody]
     exact ⟨fun _ => rfl, fun _ => Or.inr (Or.inr rfl)⟩
+  | refresh => exact h
+  | start => exact h
+  | stop => exact h
   | update i u =>
     simp only [taskEffect, Task.updateBody]
     apply finishCheck_run
@@ -154,12 +165,21 @@ theorem body_inv (cfg : Cfg) (clock : Clock) (hm : Mono clock) (op : Op) (st : S
     cases htg : op.target with
     | none =>
       cases op with
-      | addTask s tot c v =>
+      | addTask a =>
         intro t ht
-        simp only [body, List.mem_append, List.mem_singleton] at ht ⊢
+        simp only [body, List.mem_append, List.mem_singleton] at ht hclk ⊢
         rcases ht with ht | rfl
-        · exact ⟨SOK_mono (h t ht).1 (by split <;> simp), (h t ht).2⟩
+        · exact ⟨SOK_mono (h t ht).1 hclk, (h t ht).2⟩
         · exact ⟨SOK_nil _ _, fun _ => rfl, fun _ => Or.inr (Or.inr rfl)⟩
+      | refresh => intro t ht; exact ⟨SOK_mono (h t ht).1 hclk, (h t ht).2⟩
+      | start =>
+        intro t ht
+        have ht' : t ∈ st.tasks := by simp only [body] at ht; split at ht <;> exact ht
+        exact ⟨SOK_mono (h t ht').1 hclk, (h t ht').2⟩
+      | stop =>
+        intro t ht
+        have ht' : t ∈ st.tasks := by simp only [body] at ht; split at ht <;> exact ht
+        exact ⟨SOK_mono (h t ht').1 hclk, (h t ht').2⟩
       | removeTask i => exact absurd rfl (hr i)
       | startTask i => simp [Op.target] at htg
       | stopTask i => simp [Op.target] at htg
@@ -179,7 +199,7 @@ theorem body_inv (cfg : Cfg) (clock : Clock) (hm : Mono clock) (op : Op) (st : S
         simp only at ht hclk ⊢
         rcases mem_setTask ht with rfl | ⟨hmem, _⟩
         · have hx := h x (lookup_some hl).1
-          refine ⟨taskEffect_inv cfg clock hm op x st.clk hnn hx.1, taskEffect_run cfg clock op x st.clk ?_ hx.2⟩
+          refine ⟨taskEffect_inv cfg clock hm op _ x st.clk hnn hx.1, taskEffect_run cfg clock op _ x st.clk ?_ hx.2⟩
           intro i hi
           have : i = j := by
             cases op <;> simp_all [Op.progresses, Op.target]
@@ -240,12 +260,21 @@ theorem body_invS (cfg : Cfg) (clock : Clock) (hm : Mono clock) (op : Op) (st : 
     cases htg : op.target with
     | none =>
       cases op with
-      | addTask s tot c v =>
+      | addTask a =>
         intro t ht
-        simp only [body, List.mem_append, List.mem_singleton] at ht ⊢
+        simp only [body, List.mem_append, List.mem_singleton] at ht hclk ⊢
         rcases ht with ht | rfl
-        · exact SOK_mono (h t ht) (by split <;> simp)
+        · exact SOK_mono (h t ht) hclk
         · exact SOK_nil _ _
+      | refresh => intro t ht; exact SOK_mono (h t ht) hclk
+      | start =>
+        intro t ht
+        have ht' : t ∈ st.tasks := by simp only [body] at ht; split at ht <;> exact ht
+        exact SOK_mono (h t ht') hclk
+      | stop =>
+        intro t ht
+        have ht' : t ∈ st.tasks := by simp only [body] at ht; split at ht <;> exact ht
+        exact SOK_mono (h t ht') hclk
       | removeTask i => exact absurd rfl (hr i)
       | startTask i => simp [Op.target] at htg
       | stopTask i => simp [Op.target] at htg
@@ -264,7 +293,7 @@ theorem body_invS (cfg : Cfg) (clock : Clock) (hm : Mono clock) (op : Op) (st : 
         intro t ht
         simp only at ht hclk ⊢
         rcases mem_setTask ht with rfl | ⟨hmem, _⟩
-        · exact taskEffect_inv cfg clock hm op x st.clk hnn (h x (lookup_some hl).1)
+        · exact taskEffect_inv cfg clock hm op _ x st.clk hnn (h x (lookup_some hl).1)
         · exact SOK_mono (h t hmem) hclk
 
 theorem run_invS (cfg : Cfg) (clock : Clock) (hm : Mono clock) (ops : List Op) :
